@@ -22,6 +22,11 @@ P_Gate == << Op("create", "A", "w1", "-", 128), Op("newaddr", "A", "w1", "std", 
              Op("newaddr", "A", "w1", "stk", 0), Op("export", "A", "w1", "right", 0),
              Op("impmn", "B", "w3", "-", 2) >>
 
+\* theme "hold" (C05): the wallet is inside a signing window (unlocked on purpose, as between two inputs of one
+\* SignRawTx); every gated operation, public-passphrase change and refused attempt must behave as on a locked wallet
+P_Hold == << Op("create", "A", "w1", "-", 128), Op("newaddr", "A", "w1", "std", 0),
+             Op("hold", "A", "w1", "right", 0) >>
+
 \* the shortest history on which the code as found refuses the right passphrase (known finding K-C05-1)
 P_Known == << Op("create", "A", "w1", "-", 128), Op("newaddr", "A", "w1", "std", 0),
               Op("sign", "A", "w1", "right", 0), Op("export", "A", "w1", "right", 0),
